@@ -4,7 +4,7 @@ export GOFLAGS=-mod=mod GOPROXY=off
 cd /verif/gocv && go build -o /verif/bin/gocv . || exit 2
 cd /verif
 props=$(python3 -c "import json;print(' '.join(sorted(json.load(open('/verif/tools/claims.json')).keys())))")
-if [ "${1:-}" = "baseline" ]; then /verif/bin/gocv baseline $props 2>/dev/null; fi
+if [ "${1:-}" = "baseline" ]; then /verif/bin/gocv baseline $props 2>&1 | grep -v "^loaded" | grep -iv "functions," ; fi
 rc=0
 for p in $props; do ./check.sh $p quick 2>&1 | grep -v "^loaded" ; [ ${PIPESTATUS[0]} -ne 0 ] && rc=1; done
 exit $rc
